@@ -81,6 +81,9 @@ def St.set (st : St) (id : Bytes) (d : SData) (ttl : Nat) : St :=
   if id = [] then st
   else { st with store := put st.store id { blob := d, deadline := if ttl = 0 then none else some (st.now + ttl) } }
 
+/-- `Storage.Keys()`: the keys of the live entries -/
+def St.liveKeys (st : St) : List Bytes := (st.store.filter fun e => e.2.live st.now).map (·.1)
+
 def St.del (st : St) (id : Bytes) : St := if id = [] then st else { st with store := erase st.store id }
 
 /-- session.go `Session` (the fields that matter) -/
@@ -101,7 +104,6 @@ structure RCtx where
   locals : Option Bytes := none            -- Locals(sessionIDContextKey)
   outCk : Option (Option Bytes) := none    -- Set-Cookie: `some none` = expired, `some (some v)`
   outHd : Option Bytes := none             -- response header
-  gens : List Bytes := []
 
 /-! ## store.go -/
 
@@ -112,9 +114,12 @@ def getSessionID (cfg : Cfg) (c : RCtx) : Bytes :=
   else if cfg.source = .query ∧ c.qr ≠ [] then c.qr
   else []
 
+/-- the `KeyGenerator` the harness configures: `id1`, `id2`, … -/
+def idGen (n : Nat) : Bytes := b "id" ++ natToDec (n + 1)
+
 def newID (gen : Nat → Bytes) (c : RCtx) : RCtx × Bytes :=
   let id := gen c.st.nid
-  ({ c with st := { c.st with nid := c.st.nid + 1 }, gens := c.gens ++ [id] }, id)
+  ({ c with st := { c.st with nid := c.st.nid + 1 } }, id)
 
 /-- `acquireSession`: take a pooled object (its data map comes along) or a new one -/
 def acquire (c : RCtx) : RCtx × SData :=
@@ -168,9 +173,12 @@ def sessSave (cfg : Cfg) (c : RCtx) (s : Sess) : RCtx × Sess :=
   let c := setSession cfg c s
   ({ c with st := c.st.set s.id s.data s.idleT.toNat }, s)
 
+/-- the id `getSession` looks up: `Locals(sessionIDContextKey)` if this request already generated one -/
+def lookupId (cfg : Cfg) (c : RCtx) : Bytes := match c.locals with | some i => i | none => getSessionID cfg c
+
 /-- store.go `getSession` -/
 def getSession (cfg : Cfg) (gen : Nat → Bytes) (c : RCtx) : RCtx × Sess :=
-  let id0 := match c.locals with | some i => i | none => getSessionID cfg c
+  let id0 := lookupId cfg c
   let fresh0 := c.locals.isSome
   let raw := c.st.get id0
   let (c, id, fresh) :=
@@ -320,26 +328,38 @@ structure Resp where
   acts : List AObs
   outCk : Option (Option Bytes)
   outHd : Option Bytes
-  gens : List Bytes
+  gens : List Bytes                 -- key-generator outputs during the request
+  keys : List Bytes                 -- `Storage.Keys()` after the request
   deriving Repr, DecidableEq
+
+/-- the ids the key generator handed out while its call counter went from `n` to `n'` -/
+def gensBetween (gen : Nat → Bytes) (n n' : Nat) : List Bytes := (List.range' n (n' - n)).map gen
+
+/-- middleware.go `NewWithStore` handler, the part after `c.Next()`: save unless destroyed, release -/
+def mwFinish (cfg : Cfg) (h : HSt) : RCtx :=
+  match h.mw with
+  | some s =>
+    if h.destroyed then h.c
+    else release (sessSave cfg h.c s).1 (sessSave cfg h.c s).2
+  | none => h.c
+
+/-- the handler state a request starts its script in: behind the middleware (`initialize` has loaded
+    the session) or on a plain route -/
+def startReq (cfg : Cfg) (gen : Nat → Bytes) (st : St) (q : Req) : HSt :=
+  let c : RCtx := { st := st, ck := q.ck, hd := q.hd, qr := q.qr }
+  if q.viaMw then { c := (getSession cfg gen c).1, mw := some (getSession cfg gen c).2, cur := .mw }
+  else { c := c, mw := none, cur := .none }
+
+/-- the context a request ends in: behind the middleware after its auto-save, else the handler's -/
+def endCtx (cfg : Cfg) (q : Req) (h : HSt) : RCtx := if q.viaMw then mwFinish cfg h else h.c
 
 /-- one request: middleware.go `NewWithStore` handler around the script, or the script alone -/
 def handle (cfg : Cfg) (gen : Nat → Bytes) (st : St) (q : Req) : St × Resp :=
-  let c : RCtx := { st := st, ck := q.ck, hd := q.hd, qr := q.qr }
-  if q.viaMw then
-    let (c, s) := getSession cfg gen c
-    let (h, os) := runScript cfg gen { c := c, mw := some s, cur := .mw } q.script
-    let c := match h.mw with
-      | some s =>
-        if h.destroyed then h.c
-        else
-          let (c, s) := sessSave cfg h.c s
-          release c s
-      | none => h.c
-    (c.st, { acts := os, outCk := c.outCk, outHd := c.outHd, gens := c.gens })
-  else
-    let (h, os) := runScript cfg gen { c := c, mw := none, cur := .none } q.script
-    (h.c.st, { acts := os, outCk := h.c.outCk, outHd := h.c.outHd, gens := h.c.gens })
+  let h := (runScript cfg gen (startReq cfg gen st q) q.script).1
+  let os := (runScript cfg gen (startReq cfg gen st q) q.script).2
+  let c := if q.viaMw then mwFinish cfg h else h.c
+  (c.st, { acts := os, outCk := c.outCk, outHd := c.outHd, gens := gensBetween gen st.nid c.st.nid,
+           keys := c.st.liveKeys })
 
 inductive Op where
   | adv (secs : Nat)
